@@ -143,6 +143,170 @@ def weave_free_variables(w, sc):
     w.after(r"^\s*free_variables\(body, cutoff \+ definitions\.len\(\), variables\);$", sc["free_variables.let.post"])
 
 
+def closure_contract(w, regex, head):
+    """`.map(|q| Term {` .. `})`  ->  `.map(HEAD { Term {` .. `} })` : the closure gets a parameter
+    type, a named result and an `ensures`; its body text is unchanged (extra braces only)."""
+    i = w.find(regex)
+    j = w.block_end(i)
+    m = re.match(r"^(.*\()\|\w+\| (\w+ \{)$", w.lines[i])
+    if not m or w.lines[j].strip() != "})":
+        raise LostAnchor(f"{w._where(i)}: closure shape not as expected")
+    w.lines[i] = m.group(1) + head.strip() + " { " + m.group(2)
+    w.lines[j] = w.lines[j].replace("})", "} })")
+    w.log["annotations"].append({"fn": w.name, "kind": "closure-contract", "anchor": regex})
+
+
+def once_chain_to_loop(w, start, invariant):
+    """R4 (variant): `once(X).chain(E.iter().skip(1).map(|PAT| { BODY })).collect()` ->
+    `{ let mut out = Vec::new(); out.push(X); for k in 1..E.len() { let PAT = &E[k]; out.push(BODY); } out }`."""
+    i = w.find(r"^\s*once\(.*\)$", 1, start)
+    ind = " " * (len(w.lines[i]) - len(w.lines[i].lstrip()))
+    x = re.match(r"^\s*once\((.*)\)$", w.lines[i]).group(1)
+    m = re.match(r"^\s*\.chain\((\w+)\.iter\(\)\.skip\(1\)\.map\($", w.lines[i + 1])
+    if not m:
+        raise LostAnchor(f"{w._where(i+1)}: expected `.chain(E.iter().skip(1).map(`")
+    recv = m.group(1)
+    m2 = re.match(r"^\s*\|(.*)\| \{$", w.lines[i + 2])
+    if not m2:
+        raise LostAnchor(f"{w._where(i+2)}: expected `|PAT| {{`")
+    pat = m2.group(1)
+    j = w.block_end(i + 2)
+    if w.lines[j].strip() != "}," or w.lines[j + 1].strip() != "))" or w.lines[j + 2].strip() != ".collect(),":
+        raise LostAnchor(f"{w._where(j)}: expected `}},` `))` `.collect(),`")
+    body = w.lines[i + 3 : j]
+    new = [ind + "{", ind + f"    let mut out: {DEFS_TY} = Vec::new();", ind + f"    out.push({x});", ind + f"    for k in 1..{recv}.len()"]
+    new += invariant.rstrip("\n").split("\n")
+    new += [ind + "    {", ind + f"        let {pat} = &{recv}[k];", ind + "        out.push("] + body + [ind + "        );", ind + "    }", ind + "    out", ind + "},"]
+    w.rewrite_lines("R4-once-chain-skip", i, j + 2, new, note="once(X).chain(E.iter().skip(1).map(f)).collect() as an explicit push loop from index 1")
+
+
+def skip_map_collect_to_loop(w, first_regex, invariant, body_pre=None):
+    """R4 (variant): `let v = E.iter().skip(1).map(|PAT| { BODY }).collect();` ->
+    `let v = { let mut out = Vec::new(); for k in 1..E.len() { let PAT = &E[k]; out.push(BODY); } out };`"""
+    i = w.find(first_regex)
+    m = re.match(r"^(\s*)(let \w+ = )(\w+)$", w.lines[i])
+    if not m:
+        raise LostAnchor(f"{w._where(i)}: expected `let v = E`")
+    ind, head, recv = m.group(1), m.group(2), m.group(3)
+    if w.lines[i + 1].strip() != ".iter()" or w.lines[i + 2].strip() != ".skip(1)":
+        raise LostAnchor(f"{w._where(i+1)}: expected `.iter()` `.skip(1)`")
+    m2 = re.match(r"^\s*\.map\(\|(.*)\| \{$", w.lines[i + 3])
+    if not m2:
+        raise LostAnchor(f"{w._where(i+3)}: expected `.map(|PAT| {{`")
+    pat = m2.group(1)
+    j = w.block_end(i + 3)
+    if w.lines[j].strip() != "})" or w.lines[j + 1].strip() != ".collect();":
+        raise LostAnchor(f"{w._where(j)}: expected `}})` `.collect();`")
+    body = w.lines[i + 4 : j]
+    new = [ind + head + "{", ind + f"    let mut out: {DEFS_TY} = Vec::new();", ind + f"    for k in 1..{recv}.len()"]
+    new += invariant.rstrip("\n").split("\n")
+    new += [ind + "    {", ind + f"        let {pat} = &{recv}[k];"]
+    if body_pre:
+        new += body_pre.rstrip("\n").split("\n")
+    new += [ind + "        out.push("] + body + [ind + "        );", ind + "    }", ind + "    out", ind + "};"]
+    w.rewrite_lines("R4-skip-map-collect", i, j + 1, new, note="E.iter().skip(1).map(f).collect() as an explicit push loop from index 1")
+
+
+def bind_return(w, regex, var, proof_text, nth=1, start=0):
+    """R7 (variant): `return E;` -> `let VAR = E; proof { .. } return VAR;`"""
+    i = w.find(regex, nth, start)
+    j = w.block_end(i)
+    if not w.lines[i].lstrip().startswith("return ") or not w.lines[j].rstrip().endswith(";"):
+        raise LostAnchor(f"{w._where(i)}: expected a `return E;` statement")
+    ind = " " * (len(w.lines[i]) - len(w.lines[i].lstrip()))
+    body = w.lines[i : j + 1]
+    new = [ind + f"let {var} = " + body[0].lstrip()[len("return "):]] + body[1:]
+    new += proof_text.rstrip("\n").split("\n")
+    new.append(ind + f"return {var};")
+    w.rewrite_lines("R7-bind-return", i, j, new, note="returned expression bound to a local so that a proof block can follow it")
+
+
+def hoist_argument(w, stmt_regex, arg_regex, var, proof_text):
+    """R8: `let x = f(a, &Term { .. }, c);` -> `let VAR = Term { .. }; proof { .. } let x = f(a, &VAR, c);`
+    The hoisted argument is a struct literal; the arguments before it are plain variable reads, so the
+    evaluation order of everything observable is unchanged."""
+    i = w.find(stmt_regex)
+    j = w.block_end(i)
+    a = w.find(arg_regex, 1, i)
+    if a > j:
+        raise LostAnchor(f"{w._where(i)}: argument /{arg_regex}/ not inside this statement")
+    for k in range(i + 1, a):
+        if not re.match(r"^\s*\w+,$", w.lines[k]):
+            raise LostAnchor(f"{w._where(k)}: arguments before the hoisted one must be plain variables")
+    e = w.block_end(a)
+    if w.lines[e].strip() != "}," or not w.lines[a].strip().startswith("&"):
+        raise LostAnchor(f"{w._where(a)}: expected `&Term {{ .. }},`")
+    ind = " " * (len(w.lines[i]) - len(w.lines[i].lstrip()))
+    aind = len(w.lines[a]) - len(w.lines[a].lstrip())
+    lit = [l[aind - len(ind):] if l.strip() else l for l in w.lines[a : e + 1]]
+    lit[0] = ind + f"let {var} = " + w.lines[a].strip()[1:]
+    lit[-1] = ind + "};"
+    new = lit + proof_text.rstrip("\n").split("\n") + w.lines[i:a] + [" " * aind + f"&{var},"] + w.lines[e + 1 : j + 1]
+    w.rewrite_lines("R8-hoist-argument", i, j, new, note="struct-literal argument bound to a local before the call so that a proof block can mention it")
+
+
+BIGINT_OPS = [
+    (r"IntegerLiteral\(-(\w+)\)", r"IntegerLiteral(bigint_neg(\1))", 1),
+    (r"IntegerLiteral\((\w+) \+ (\w+)\)", r"IntegerLiteral(bigint_add(\1, \2))", 1),
+    (r"IntegerLiteral\((\w+) - (\w+)\)", r"IntegerLiteral(bigint_sub(\1, \2))", 1),
+    (r"IntegerLiteral\((\w+) \* (\w+)\)", r"IntegerLiteral(bigint_mul(\1, \2))", 1),
+    (r"if (integer1) < (integer2) \{", r"if bigint_lt(\1, \2) {", 1),
+    (r"if (integer1) <= (integer2) \{", r"if bigint_le(\1, \2) {", 1),
+    (r"if (integer1) == (integer2) \{", r"if bigint_eq(\1, \2) {", 1),
+    (r"if (integer1) > (integer2) \{", r"if bigint_gt(\1, \2) {", 1),
+    (r"if (integer1) >= (integer2) \{", r"if bigint_ge(\1, \2) {", 1),
+]
+
+
+def weave_is_value(w, sc):
+    w.contract(sc["is_value.contract"], ret="r")
+
+
+def weave_step(w, sc):
+    w.contract(sc["step.contract"], ret="r")
+    w.body_first(sc["step.first"])
+    # R6: the hole arm
+    i = w.find(r"^        Unifier\(subterm, subterm_shift\) => \{$")
+    drop_hole_arm(w, r"^        Unifier\(subterm, subterm_shift\) => \{$", "hole_arm_unreachable_opt()")
+    # R3: operator sugar on &BigInt
+    for rx, rp, n in BIGINT_OPS:
+        w.rewrite_regex("R3-bigint-operator", rx, rp, expect=n, note="overloaded operator on &BigInt as a named function with the assumed num-bigint contract")
+    closure_contract(w, r"\.checked_div\(integer2\)\.map\(\|quotient\| Term \{$", sc["step.div.closure.head"])
+    # beta reduction needs the overflow guards of its operands at cutoff 0
+    w.before(r"^\s*Some\(open\(body, 0, argument, 0\)\)$", """                proof {
+                    lemma_ok_weaken(vr(body), 1, SB() as nat, 0, BOUND() as nat);
+                    lemma_ok_weaken(vr(argument), 0, SB() as nat, 0, BOUND() as nat);
+                }""")
+    # the Let arm
+    i_let = w.find(r"^        Let\(definitions, body\) => \{$")
+    i = w.find(r"^\s*if let Some\(\(variable, annotation, definition\)\) = definitions\.first\(\) \{$", 1, i_let)
+    w.lines[i + 1 : i + 1] = sc["step.let.some.pre"].rstrip("\n").split("\n")
+    w.log["annotations"].append({"fn": w.name, "kind": "proof-after", "anchor": "definitions.first()"})
+    once_chain_to_loop(w, i_let, sc["step.let.stepped.loop"])
+    bind_return(w, r"^\s*return Some\(Term \{$", "stepped", sc["step.let.stepped.post"], 1, i_let)
+    hoist_argument(w, r"^\s*let unfolded_definition = open\($", r"^\s*&Term \{$", "inserted", sc["step.let.inserted.post"])
+    w.after(r"^\s*let unfolded_definition = open\($", sc["step.let.unfolded.post"])
+    skip_map_collect_to_loop(w, r"^\s*let substituted_definitions = definitions$", sc["step.let.subst.loop"], body_pre=sc["step.let.subst.body"])
+    w.before(r"^\s*let substituted_body = open\(body, index, &unfolded_definition, 0\);$", sc["step.let.body.pre"])
+    i_sb = w.find(r"^\s*let substituted_body = open\(")
+    i_fin = w.find(r"^\s*Some\(Term \{$", 1, i_sb)
+    ind = len(w.lines[i_fin]) - len(w.lines[i_fin].lstrip())
+    w.bind_tail(r"^" + " " * ind + r"Some\(Term \{$", "substituted", sc["step.let.final.post"], nth=w.count_until(r"^" + " " * ind + r"Some\(Term \{$", i_fin))
+    w.before(r"^\s*Some\(\(\*\*body\)\.clone\(\)\)$", sc["step.let.none.pre"])
+
+
+def weave_evaluate(w, sc):
+    w.contract(sc["evaluate.contract"], ret="r", attrs="#[verifier::exec_allows_no_decreases_clause]")
+    w.before(r"^    let mut term = term\.clone\(\);$", sc["evaluate.pre"])
+    w.after(r"^    let mut term = term\.clone\(\);$", sc["evaluate.cloned"])
+    w.while_invariant(1, sc["evaluate.loop"])
+    i = w.find(r"^        term = stepped_term;$")
+    w.lines[i:i] = sc["evaluate.loop.body.pre"].rstrip("\n").split("\n")
+    w.after(r"^        term = stepped_term;$", sc["evaluate.loop.body.post"])
+    w.before(r"^    if is_value\(&term\) \{$", sc["evaluate.after"])
+    w.rewrite_regex("R5-stuck-message", r'format!\("Evaluation of \{\} is stuck!", term\.to_string\(\)\.code_str\(\)\)', "stuck_message(&term)", expect=1, note="message text is not part of C02; Display/format! are outside the verifier's reach")
+
+
 class Build:
     """A woven file: text + what was done + where each function under contract sits in it."""
 
@@ -194,6 +358,7 @@ def build_core(repo, external=(), canary=None, with_witness=True):
     b = Build("core")
     log = b.log
     sc = sections(os.path.join(VERIF, "contracts/u1.vrs"))
+    sc.update(sections(os.path.join(VERIF, "contracts/u2.vrs")))
     if canary:
         sc = dict(sc)
         sc[canary[0] + ".contract"] = sc[canary[1]]
@@ -219,11 +384,19 @@ def build_core(repo, external=(), canary=None, with_witness=True):
         log["rewrites"].append({"rule": "R1-derive-clone", "site": f"src/term.rs {w.kind} {w.name}", "before": "#[derive(Clone, Debug)]", "after": "(assumed Clone impl: r == *self)", "note": "Verus gives a derived non-Copy Clone no specification"})
     b.add(t.text())
     b.add(v.text())
+    er = Woven(error_rs, "struct", "Error", log)
+    if er.attrs != ["#[derive(Clone, Debug)]"]:
+        raise LostAnchor(f"src/error.rs struct Error: expected #[derive(Clone, Debug)], found {er.attrs}")
+    er.rewrite_regex("R2-type-substitution", r"Option<Rc<dyn error::Error>>", "Option<Rc<DynError>>", expect=1, note="dyn payload replaced by an opaque stub type")
+    b.add(er.text())
+    log["dropped"].append({"site": "src/error.rs struct Error", "text": "#[derive(Clone, Debug)]", "why": "neither impl is used by the functions under contract"})
     b.add(CLONE_IMPLS)
     b.add(VARIANT_IMPORT)
     b.add(HOLE_STUB)
     b.add(read("spec/core_spec.rs"))
+    b.add(read("spec/core_bounds.rs"))
     b.add(read("spec/core_laws.rs"))
+    b.add(read("spec/eval_spec.rs"))
 
     ss = Woven(db_rs, "fn", "signed_shift", log)
     strip_clippy(ss)
@@ -235,7 +408,15 @@ def build_core(repo, external=(), canary=None, with_witness=True):
     weave_open(op, sc)
     fv = Woven(term_rs, "fn", "free_variables", log)
     weave_free_variables(fv, sc)
-    for f in (ss, us, op, fv):
+    ev_rs = Source(repo, "src/evaluator.rs")
+    iv = Woven(ev_rs, "fn", "is_value", log)
+    weave_is_value(iv, sc)
+    st = Woven(ev_rs, "fn", "step", log)
+    strip_clippy(st)
+    weave_step(st, sc)
+    ev = Woven(ev_rs, "fn", "evaluate", log)
+    weave_evaluate(ev, sc)
+    for f in (ss, us, op, fv, iv, st, ev):
         b.add_fn(f, external=f.name in external)
 
     if with_witness:
@@ -247,7 +428,7 @@ def build_core(repo, external=(), canary=None, with_witness=True):
 def canaries(unit):
     """fn -> sidecar section holding a deliberately wrong contract (must-fail vacuity guard)."""
     if unit == "core":
-        return {fn: fn + ".canary" for fn in ("signed_shift", "unsigned_shift", "open", "free_variables")}
+        return {fn: fn + ".canary" for fn in ("signed_shift", "unsigned_shift", "open", "free_variables", "is_value", "step")}
     return {}
 
 
